@@ -126,7 +126,7 @@ def generate(rng, opts):
             else:
                 faults.append({"kind": "bytecode"})
         if r < 0.6:
-            ops.append({"op": "load_git", "ref": ref, "form": rng.choice(["name", "name", "path"]), "resolve_aliases": rng.random() < 0.5, "force_inspection": any(f["kind"] == "bytecode" for f in faults), "faults": faults})
+            ops.append({"op": "load_git", "ref": ref, "form": rng.choice(["name", "name", "path"]), "repo_arg": rng.choice(["abs", "abs", "dot", "relative", "pathobj"]), "resolve_aliases": rng.random() < 0.5, "force_inspection": any(f["kind"] == "bytecode" for f in faults), "faults": faults})
         else:
             base = rng.choice([None, None, rng.choice(refs)])
             ops.append({"op": "check", "api": rng.choice(["check", "main"]), "against": ref if rng.random() < 0.85 else None, "base_ref": base, "style": rng.choice([None, "oneline", "verbose", "markdown", "github"]), "faults": faults})
@@ -505,10 +505,11 @@ def execute(plan, ctx):
                 with CheckoutReadSeam(tmpdir, faults, ctx):
                     if op["op"] == "load_git":
                         spec = "pkg" if op["form"] == "name" else Path("src/pkg" if world["layout"] == "src" else "pkg")
+                        repo_arg = {"abs": repo, "dot": ".", "relative": os.path.join("..", os.path.basename(repo)), "pathobj": Path(repo)}[op.get("repo_arg", "abs")]
                         result = griffe.load_git(
                             spec,
                             ref=op["ref"],
-                            repo=repo,
+                            repo=repo_arg,
                             extensions=exts,
                             search_paths=search_paths if op["form"] == "name" else None,
                             resolve_aliases=op["resolve_aliases"],
